@@ -71,6 +71,27 @@ def families(tier: str) -> list[dict]:
         wide, ['Train', 'Step', 'Eval', 'Reset', 'FwdOnly', 'Save', 'Load',
                'Mem', 'Sched'], 12 if quick else 16, micro=[1, 2],
         exhaustive=False, num=60 if quick else 2000, spec_depth=6))
+    # marathons: few but LONG behaviours (15-30 steps, several checkpoint /
+    # resume cycles, intervals that do not divide one another) -- deviations
+    # that need a long history (a counter crossing a threshold, a cache going
+    # stale) are out of reach of the exhaustive depth
+    L = 48 if quick else 110
+    m1 = dict(base, F=3, I=5, in_hook=True, accum=2, damping='damp_lin',
+              decay='expdecay')
+    fams.append(reffam.fam(m1, ['Train', 'Step', 'Eval'], L, micro=[1, 2],
+                           exhaustive=False, num=3 if quick else 40,
+                           spec_depth=5))
+    m2 = dict(base, F='int_1_3', I=4, in_hook=False, accum=1,
+              method='inverse', kl_clip='kl_lin', lr='lr_lin')
+    fams.append(reffam.fam(m2, ['Train', 'Step', 'Save', 'Load'], L,
+                           exhaustive=False, num=3 if quick else 40,
+                           spec_depth=5, save_args=(True,),
+                           load_args=(True, False)))
+    m3 = dict(base, F=2, I=2, in_hook=True, accum=1, prediv=True,
+              sched={'factor_update_steps': 'dbl_after1', 'lr': 'half'})
+    fams.append(reffam.fam(m3, ['Train', 'Step', 'Sched', 'Reset'], L,
+                           sched_args=[-1], exhaustive=False,
+                           num=2 if quick else 30, spec_depth=5))
     return fams
 
 
